@@ -95,7 +95,12 @@ URL_IN_HTML_BINARY_RE = re.compile(URL_IN_HTML_BINARY, re.I)
 QUERY_VALUE_IN_URL_TEMPLATE = r"(?:^|[?&])(%s)=([^&]+)"
 QUERY_VALUE_TEMPLATE = r"%s=([^&]+)"
 
-DOMAIN_TEMPLATE = r"^(?:https?:)?(?://)?(?:\S+(?::\S*)?@)?%s(?:[:/#]|\s*$)"
+DOMAIN_LABEL = r"[^\s./?#:@]+"
+DOMAIN_TEMPLATE = (
+    r"^(?:https?:)?(?://)?(?:[^\s/?#]*@)?(?:%s\.)*" % DOMAIN_LABEL
+    + r"%s(?::\d*)?(?:[/?#]|\s*$)"
+)
+HOSTNAME_TEMPLATE = r"(?:^|\.)%s$"
 
 SCRIPT_TAG = r"<script\b[^<]*(?:(?!<\/script>)<[^<]*)*<\/script>"
 SCRIPT_TAG_BINARY = SCRIPT_TAG.encode()
